@@ -234,12 +234,81 @@ Definition refl_map_op (md : mdesc) (fd : fdesc) (mro : bool) (o : mop) (fs : fi
     end
   end.
 
+(* ---------- the invariant of abstract states ---------- *)
+Definition refl_oneofs_ok (md : mdesc) (fs : fields) : bool :=
+  forallb (fun p =>
+    match msg_find_field md (fst p) with
+    | Some fd =>
+      match f_oneof fd with
+      | None => true
+      | Some i => forallb (fun q => (fst q =? fst p) || negb (refl_in_oneof md i (fst q))) fs
+      end
+    | None => false
+    end) fs.
+
+Fixpoint refl_keys_sorted (lo : option N) (fs : fields) : bool :=
+  match fs with
+  | [] => true
+  | (k, vs) :: r =>
+    match lo with Some l => l <? k | None => true end
+    && match vs with [] => false | _ => true end
+    && refl_keys_sorted (Some k) r
+  end.
+
+Definition refl_level_wf (md : mdesc) (fs : fields) : bool :=
+  refl_keys_sorted None fs && refl_oneofs_ok md fs.
+
+(* the recursive invariant: every message of the tree is well formed for its type *)
+Section WfVals.
+  Variable wf : nat -> value -> bool.
+  Definition refl_wf_val (t : nat) (v : value) : bool :=
+    match v with VEntry _ v' => wf t v' | VS _ => false | VMsg _ _ => wf t v end.
+  Definition refl_wf_vals (fd : fdesc) (vs : list value) : bool :=
+    match f_kind fd with
+    | KS _ => true
+    | KMsg t | KGrp t => forallb (refl_wf_val t) vs
+    end.
+  Definition refl_wf_chunk (md : mdesc) (p : N * list value) : bool :=
+    match msg_find_field md (fst p) with
+    | Some fd => refl_wf_vals fd (snd p)
+    | None => false
+    end.
+End WfVals.
+
+Fixpoint refl_wf (S : schema) (tid : nat) (v : value) {struct v} : bool :=
+  match v with
+  | VMsg fs _ =>
+    refl_level_wf (nth tid S []) fs && forallb (refl_wf_chunk (refl_wf S) (nth tid S [])) fs
+  | _ => false
+  end.
+
+(* argument values of an operation are dumps of protoreflect values: well formed *)
+Definition refl_op_wf (S : schema) (md : mdesc) (op : rop) : bool :=
+  let vals (f : N) (vs : list value) : bool :=
+    match msg_find_field md f with
+    | Some fd => refl_wf_vals (refl_wf S) fd vs
+    | None => true
+    end in
+  let arg (f : N) (v : value) : bool :=       (* one list element / one map value *)
+    match msg_find_field md f with
+    | Some fd => match f_kind fd with KS _ => true | KMsg t | KGrp t => refl_wf S t v end
+    | None => true
+    end in
+  match op with
+  | RSet f vs => vals f vs
+  | RList f _ (LSet _ v) => arg f v
+  | RList f _ (LAppend v) => arg f v
+  | RMap f _ (MSet _ v) => arg f v
+  | _ => true
+  end.
+
 (* ---------- one operation on one message ----------
    ro: the message is the read-only empty message (then fs = [] and unk = []) *)
 Definition refl_step (S : schema) (D : rdefs) (tid : nat) (ro : bool) (op : rop) (m : msg_macc)
     : msg_macc * rout :=
   let md := nth tid S [] in
   let '(fs, unk) := m in
+  if negb (refl_op_wf S md op) then (m, OPanic) else    (* outside the domain: not a dump *)
   let with_field (num : N) (k : fdesc -> msg_macc * rout) : msg_macc * rout :=
     match msg_find_field md num with
     | Some fd => k fd
@@ -320,6 +389,7 @@ Fixpoint refl_focus (S : schema) (D : rdefs) (w : bool) (path : list pstep) (tid
              end
       | PL f i =>
         if ro && w then (m, OPanic) else
+        if negb (refl_kind_is_msg (f_kind fd)) then (m, OPanic) else   (* Value.Message() of a scalar *)
         let vs := msg_fget fs f in
         match nth_error vs (N.to_nat i) with
         | Some sub =>
@@ -329,6 +399,7 @@ Fixpoint refl_focus (S : schema) (D : rdefs) (w : bool) (path : list pstep) (tid
         end
       | PM f k =>
         if ro && w then (m, OPanic) else
+        if negb (refl_kind_is_msg (f_kind fd)) then (m, OPanic) else
         let es := msg_fget fs f in
         match refl_map_get es k with
         | Some sub =>
@@ -373,26 +444,3 @@ Fixpoint refl_run (S : schema) (D : rdefs) (m : value) (steps : list rstep) : va
     (m2, (out, m1) :: outs)
   end.
 
-(* ---------- the invariant of abstract states ---------- *)
-Definition refl_oneofs_ok (md : mdesc) (fs : fields) : bool :=
-  forallb (fun p =>
-    match msg_find_field md (fst p) with
-    | Some fd =>
-      match f_oneof fd with
-      | None => true
-      | Some i => forallb (fun q => (fst q =? fst p) || negb (refl_in_oneof md i (fst q))) fs
-      end
-    | None => false
-    end) fs.
-
-Fixpoint refl_keys_sorted (lo : option N) (fs : fields) : bool :=
-  match fs with
-  | [] => true
-  | (k, vs) :: r =>
-    match lo with Some l => l <? k | None => true end
-    && match vs with [] => false | _ => true end
-    && refl_keys_sorted (Some k) r
-  end.
-
-Definition refl_level_wf (md : mdesc) (fs : fields) : bool :=
-  refl_keys_sorted None fs && refl_oneofs_ok md fs.
